@@ -11,6 +11,7 @@ structure Path where
   plain : Bool               -- every segment has empty arguments
   toks : String              -- `to_token_stream().to_string()`
   span : Span
+  first : Span := span       -- span of the first segment's identifier
   deriving Repr, Inhabited, BEq, DecidableEq
 
 namespace Path
